@@ -5,7 +5,7 @@
    generated extension table; the walker's type filter) and the scan's exit status.
    Globs (globset) and the --filter regex are oracles: the set of globs / ids they match. *)
 From Coq Require Import List NArith ZArith Bool Arith.
-From AG Require Import Base.Val Base.Sort Gen.Tables.
+From AG Require Import Base.Val Base.Sort Tree.Tree Gen.Tables.
 Import ListNotations.
 
 Inductive sev := SError | SWarning | SInfo | SHint | SOff.
@@ -125,6 +125,16 @@ Definition from_path (glob_lang custom_lang builtin_lang : option N) : option N 
   match glob_lang with
   | Some l => Some l
   | None => match custom_lang with Some l => Some l | None => builtin_lang end
+  end.
+
+(* lang_globs::register registers the configured entries in name order (fix 86ecb80: the YAML map arrives as a
+   HashMap) and lang_globs::from_path answers with the first registered language one of whose globs matches
+   the path.  Globs are oracle tables as for files/ignores: an entry is (name, (language, glob ids)). *)
+Definition registered (regs : list (str * (N * list N))) : list (str * (N * list N)) := sort_kv regs.
+Definition lang_globs_from_path (regs : list (str * (N * list N))) (f : ffile) : option N :=
+  match find (fun e => glob_set_match (snd (snd e)) f) (registered regs) with
+  | Some e => Some (fst (snd e))
+  | None => None
   end.
 
 (* ---- language detection over the generated extension table ---- *)
